@@ -161,6 +161,28 @@ var c11Injectors = []c11Injector{
 		ms.Mods = append(ms.Mods, sub)
 		return true
 	}},
+	{"grouping-cycle-inside-a-submodule-used-by-a-grouping-defined-elsewhere", true, func(r *core.Rng, ms *yang.ModSet) bool {
+		// the cycle gs -> gt -> gs lies in one submodule; a grouping of the module (or of a second
+		// submodule) uses a grouping on it, so the cycle is first met from outside its own text
+		m := modA(ms)
+		sub := yang.S("submodule", "sub-cy2", yang.S("belongs-to", m.Arg, yang.S("prefix", pfx(m))),
+			yang.S("grouping", "gs", yang.S("container", "cs", yang.S("uses", "gt"))),
+			yang.S("grouping", "gt", yang.S("container", "ct", yang.S("uses", core.Pick(r, []string{"gs", pfx(m) + ":gs"})))))
+		user := yang.S("grouping", "gm", yang.S("container", "cm", yang.S("uses", core.Pick(r, []string{"gs", "gt", pfx(m) + ":gs"}))))
+		addBody(m, yang.S("include", "sub-cy2"))
+		ms.Mods = append(ms.Mods, sub)
+		switch r.Intn(3) {
+		case 0:
+			addBody(m, user)
+		case 1:
+			addBody(m, user, yang.S("container", "cy2use", yang.S("uses", "gm")))
+		default:
+			sub2 := yang.S("submodule", "sub-cy3", yang.S("belongs-to", m.Arg, yang.S("prefix", pfx(m))), yang.S("include", "sub-cy2"), user)
+			addBody(m, yang.S("include", "sub-cy3"))
+			ms.Mods = append(ms.Mods, sub2)
+		}
+		return true
+	}},
 	{"typedef-self", true, func(r *core.Rng, ms *yang.ModSet) bool {
 		addBody(modA(ms), yang.S("typedef", "cyt", yang.S("type", "cyt")), yang.S("leaf", "cyl", yang.S("type", "cyt")))
 		return true
